@@ -56,31 +56,38 @@ def _has_quantifier(fs):
 
 
 def purify(fs):
-    """Replace applications of uninterpreted functions (arity > 0) by fresh constants. Returns (formulas, table) where
-    table maps the fresh constant's name to the text of the application it stands for."""
-    table, names, cache = {}, {}, {}
-
-    def go(e):
+    """Replace applications of uninterpreted functions (arity > 0) by fresh constants. Returns (formulas, names) where
+    names maps the fresh constant's name to the application it stands for (a z3 term)."""
+    table, names, seen = {}, {}, set()
+    pairs = []
+    stack = list(fs)
+    while stack:
+        e = stack.pop()
         k = e.get_id()
-        if k in cache:
-            return cache[k]
-        if z3.is_app(e) and e.num_args() > 0:
-            ch = [go(c) for c in e.children()]
-            if e.decl().kind() == z3.Z3_OP_UNINTERPRETED:
-                key = (e.decl().name(), tuple(z3.simplify(c).get_id() for c in ch))
-                if key not in table:
-                    c = z3.Const(f"uf!{len(table)}!{e.decl().name()}", e.sort())
-                    table[key] = c
-                    names[str(c)] = str(e)[:200]
-                r = table[key]
-            else:
-                r = e.decl()(*ch)
-        else:
-            r = e
-        cache[k] = r
-        return r
-
-    return [go(f) for f in fs], names
+        if k in seen:
+            continue
+        seen.add(k)
+        if not z3.is_app(e):
+            if z3.is_quantifier(e):
+                stack.append(e.body())
+            continue
+        n = e.num_args()
+        if n == 0:
+            continue
+        ch = e.children()
+        d = e.decl()
+        if d.kind() == z3.Z3_OP_UNINTERPRETED:
+            key = (d.name(), tuple(z3.simplify(c).get_id() for c in ch))
+            c = table.get(key)
+            if c is None:
+                c = z3.Const(f"uf!{len(table)}!{d.name()}", e.sort())
+                table[key] = c
+                names[str(c)] = e
+            pairs.append((e, c))
+        stack.extend(ch)
+    if not pairs:
+        return list(fs), names
+    return [z3.substitute(f, *pairs) for f in fs], names
 
 
 def discharge_purified(ob, timeout_s=10):
@@ -107,7 +114,7 @@ def discharge_purified(ob, timeout_s=10):
     if r == z3.sat:
         m = s.model()
         md = model_dict(m, limit=400)
-        md = {names.get(k, k): v for k, v in md.items()}
+        md = {(str(names[k])[:200] if k in names else k): v for k, v in md.items()}
         return dict(status="refuted", backend="z3-purified-nlsat", time_s=dt, model=md, z3model=m, purified_names=names)
     return None
 
